@@ -47,6 +47,8 @@ fn u32at(b: &[u8], o: usize) -> usize { u16at(b, o) | u16at(b, o + 2) << 16 }
 pub struct Creds { pub domain: String, pub user: String, pub password: String, pub from_hash: bool }
 
 /// set while conforming challenges are generated: every one of them must be answered with a token
+/// when set: the Ntlm object first goes through a complete earlier handshake with this CHALLENGE
+pub static PRE_CHAL: std::sync::Mutex<Option<Vec<u8>>> = std::sync::Mutex::new(None);
 pub static EXPECT_TOKEN: std::sync::atomic::AtomicBool = std::sync::atomic::AtomicBool::new(false);
 
 pub fn run_auth(em: &mut Emitter, c: &Creds, chal: &[u8]) {
@@ -56,6 +58,7 @@ pub fn run_auth(em: &mut Emitter, c: &Creds, chal: &[u8]) {
     let chal2 = chal.to_vec();
     let r = catch_unwind(AssertUnwindSafe(|| {
         let mut n = if c.from_hash { Ntlm::from_hash(c.domain.clone(), c.user.clone(), &nt_hash) } else { Ntlm::new(c.domain.clone(), c.user.clone(), c.password.clone()) };
+        if let Some(pre) = PRE_CHAL.lock().unwrap().clone() { let _ = n.create_negotiate_message(); let _ = n.read_challenge_message(&pre); }
         let neg = n.create_negotiate_message().unwrap();
         (neg, n.read_challenge_message(&chal2))
     }));
@@ -155,7 +158,10 @@ pub fn generate_c15(thorough: bool, seed: u64, _part: (usize, usize), em: &mut E
         let sc = { let b = r.bytes(8); let mut a = [0u8; 8]; a.copy_from_slice(&b); a };
         let ti = target_info(&mut r, true);
         let md = if i % 5 == 3 { *r.pick(&[4u16, 1, 100, 0xfff0]) } else { 0 };
+        // every seventh handshake runs on an Ntlm object that already answered a CHALLENGE with the opposite UNICODE / VERSION choice
+        if i % 7 == 6 { let ti0 = target_info(&mut r, true); *PRE_CHAL.lock().unwrap() = Some(challenge(flags ^ 0x02000001, &sc, &ti0, !version, 0, 0)); }
         run_auth(em, &c, &challenge_max(flags, &sc, &ti, version, 0, 0, md));
+        *PRE_CHAL.lock().unwrap() = None;
     }
 }
 
